@@ -12,8 +12,9 @@
    Part 2: the textual grammar of IP addresses, CIDR blocks and host:port peer
            addresses on sequences of character codes (the reference reading that
            judges ParseTrustedNetworks / Contains on recorded strings).
-   Part 3: the two models (Mode = "scaled": every prefix x every peer;
-           Mode = "vec": boundary-structured real-width cases, exported). *)
+   Part 3: the models (Mode = "scaled": every prefix x every peer;
+           Mode = "vec": boundary-structured real-width cases, exported;
+           Mode = "lists": configured lists of up to three entries, exported). *)
 EXTENDS Integers, Sequences, FiniteSets, TLC, Json, IPText
 
 CONSTANTS DB,          \* bits per digit (8: bytes)
@@ -122,6 +123,20 @@ HostOf(s0) ==
 
 PeerOf(text) == AddrOf(ParseIP(HostOf(text)))
 
+\* A configured trusted list: empty means "not configured" (the documented defaults apply);
+\* otherwise every entry has to be a valid IP or CIDR.  A blank entry is not one.  An entry
+\* with white space around a non-blank text is left open (readers trim or do not).
+IsWs(c) == c \in {32, 9, 10, 11, 12, 13}
+Blank(s0) == LET s == s0 IN \A i \in 1..Len(s) : IsWs(s[i])
+EntryVerdict(s0) == LET s == s0 IN
+                    IF Blank(s) THEN "bad"
+                    ELSE IF IsWs(s[1]) \/ IsWs(s[Len(s)]) THEN "amb"
+                    ELSE ParseNet(s).st
+ListVerdict(list0) == LET list == list0
+                          v == [k \in 1..Len(list) |-> EntryVerdict(list[k])]
+                      IN IF \E k \in 1..Len(list) : v[k] = "bad" THEN "bad"
+                         ELSE IF \E k \in 1..Len(list) : v[k] = "amb" THEN "amb" ELSE "ok"
+
 ----------------------------------------------------------------------------
 (* Part 3: models *)
 VARIABLES p, peer
@@ -159,7 +174,17 @@ VecPeers(q) ==
            \cup {[fam |-> 4, d |-> Base4, zone |-> FALSE],
                  [fam |-> 6, d |-> MapTag \o Base4, zone |-> FALSE]}
 
+\* Mode "lists": p is a configured list of up to three entries (peer unused)
+ListEntries == { <<49, 57, 50, 46, 48, 46, 50, 46, 49, 48>>,                       \* 192.0.2.10
+                 <<49, 48, 46, 48, 46, 48, 46, 48, 47, 56>>,                       \* 10.0.0.0/8
+                 <<50, 48, 48, 49, 58, 100, 98, 56, 58, 58, 47, 51, 50>>,          \* 2001:db8::/32
+                 <<>>, <<32>>, <<9>>,                                              \* blank ones
+                 <<98, 111, 103, 117, 115>>,                                       \* bogus
+                 <<58, 58, 102, 102, 102, 102, 58, 49, 48, 46, 48, 46, 48, 46, 49>> } \* ::ffff:10.0.0.1
+Lists == UNION {[1..n -> ListEntries] : n \in 0..3}
+
 Init == IF Mode = "scaled" THEN p \in ScaledPrefixes /\ peer \in ScaledPeers
+        ELSE IF Mode = "lists" THEN p \in Lists /\ peer = 0
         ELSE p \in VecPrefixes /\ peer \in VecPeers(p)
 Next == UNCHANGED <<p, peer>>
 Spec == Init /\ [][Next]_<<p, peer>>
@@ -179,6 +204,13 @@ NoHeaderKeepsOwn == Outcome(T, "none") = "own"
 \* /0 trusts the whole family, /W exactly one address
 Extremes == /\ (p.n = 0 /\ Norm(peer).fam = p.fam) => T
             /\ (p.n = BitWidth(p.fam) /\ T) => Norm(peer).d = p.d
+
+\* (Mode "lists") a list with a blank entry is never acceptable, an empty list always is,
+\* and a non-empty list is acceptable exactly when each entry alone is
+ListRules == /\ (\E k \in 1..Len(p) : Blank(p[k])) => ListVerdict(p) = "bad"
+             /\ p = <<>> => ListVerdict(p) = "ok"
+             /\ ListVerdict(p) = "ok" <=> \A k \in 1..Len(p) : ListVerdict(<<p[k]>>) = "ok"
+EmitList == PrintT(<<"LIST", ToJson([list |-> p, verdict |-> ListVerdict(p)])>>)
 
 Emit == Mode = "vec" =>
           PrintT(<<"VEC", ToJson([p |-> [fam |-> p.fam, bytes |-> p.d, n |-> p.n],
